@@ -540,6 +540,10 @@ func expandRequestData(testCase *conformancev1.TestCase) error {
 				padding := make([]byte, delta)
 				bytesVal = append(bytesVal, padding...)
 			} else {
+				if -delta > int64(len(bytesVal)) {
+					return fmt.Errorf("request message #%d: can't shrink to %d bytes; message is %d bytes with only %d bytes of padding",
+						i+1, totalSize, size, len(bytesVal))
+				}
 				bytesVal = bytesVal[:len(bytesVal)+int(delta)]
 			}
 			reflectReq.Set(field, protoreflect.ValueOfBytes(bytesVal))
